@@ -406,6 +406,10 @@ int janet_verify(JanetFuncDef *def) {
 
     if (def->bytecode_length == 0) return 1;
 
+    /* No instruction can address more than 2^24 slots; larger counts overflow frame arithmetic */
+    if (sc < 0 || sc > 0x1000000) return 2;
+    if (def->arity < 0 || def->arity > sc) return 2;
+    if (def->min_arity < 0 || def->min_arity > def->max_arity) return 2;
     if (maxslot > sc) return 2;
 
     /* Verify each instruction */
